@@ -149,7 +149,7 @@ fn menu(func: u8) -> Vec<Hdr> {
     m
 }
 
-fn expect(func: u8, ctrl: u8, hdrs: &[&Hdr]) -> Expect {
+fn expect(state: State, func: u8, ctrl: u8, hdrs: &[&Hdr]) -> Expect {
     let fir_fin = ctrl & 0xC0 == 0xC0;
     let uns = ctrl & app::UNS != 0;
     if func == fc::RESPONSE || func == fc::UNSOLICITED_RESPONSE {
@@ -180,6 +180,11 @@ fn expect(func: u8, ctrl: u8, hdrs: &[&Hdr]) -> Expect {
         return if any_unparsable { Expect::Either } else { Expect::NoReply };
     }
     if !supported(func) {
+        return Expect::MustError;
+    }
+    // with unsolicited reporting switched off by configuration, enabling / disabling it is not supported
+    let unsol_configured = matches!(state, State::UnsolConfirmWait | State::NullUnsolConfirmWait);
+    if matches!(func, fc::ENABLE_UNSOLICITED | fc::DISABLE_UNSOLICITED) && !unsol_configured {
         return Expect::MustError;
     }
     if any_unparsable || any_reject {
@@ -232,7 +237,7 @@ fn build(tier: &str) -> Vec<C12> {
                             func,
                             objects: vec![],
                             labels: vec![],
-                            expect: expect(func, ctrl, &[]),
+                            expect: expect(state, func, ctrl, &[]),
                         });
                         // the menu only with the canonical flags (and with CON set), else first entry
                         let full_menu = tier != "quick" || flags == 0x0C || flags == 0x0E;
@@ -252,7 +257,7 @@ fn build(tier: &str) -> Vec<C12> {
                                 func,
                                 objects: hd.bytes.clone(),
                                 labels: vec![hd.label],
-                                expect: expect(func, ctrl, &[hd]),
+                                expect: expect(state, func, ctrl, &[hd]),
                             });
                         }
                     }
@@ -289,7 +294,7 @@ fn build(tier: &str) -> Vec<C12> {
                             func,
                             objects,
                             labels: vec![a.label, b.label],
-                            expect: expect(func, ctrl, &[a, b]),
+                            expect: expect(state, func, ctrl, &[a, b]),
                         });
                     }
                 }
